@@ -77,7 +77,7 @@ func (p *probeActor) last() []string {
 func c20Run(c *caseCtx) (res caseResult) {
 	r := c.rng
 	wd := watchdog(c.tier)
-	base := 30000 + (c.n%1500)*16
+	base := 30000 + (c.n%1000)*24
 	addr := func(i int) string { return fmt.Sprintf("127.0.0.1:%d", base+i) }
 	// the node under test
 	cfg := cluster.NewConfig().WithListenAddr(addr(0)).WithID("node").WithRequestTimeout(60 * time.Second)
@@ -104,17 +104,33 @@ func c20Run(c *caseCtx) (res caseResult) {
 	}
 	probe := &probeActor{}
 	probePID := h.Spawn(func() actor.Receiver { return probe }, "probe", actor.WithID("0"))
+	model := map[string]*cluster.Member{"node": cl.Member()}
 	// the universe: listening remotes
 	var stops []*remote.Remote
 	universe := []*cluster.Member{}
+	altHost := map[string]string{}
 	for i := 0; i < 5; i++ {
-		rm := remote.New(addr(2+i), remote.NewConfig())
-		if _, err := actor.NewEngine(actor.NewEngineConfig().WithRemote(rm)); err != nil {
-			res.inconclusive("universe engine: %v", err)
-			return
+		for _, port := range []int{2 + i, 9 + i} {
+			rm := remote.New(addr(port), remote.NewConfig())
+			if _, err := actor.NewEngine(actor.NewEngineConfig().WithRemote(rm)); err != nil {
+				res.inconclusive("universe engine: %v", err)
+				return
+			}
+			stops = append(stops, rm)
 		}
-		stops = append(stops, rm)
 		universe = append(universe, &cluster.Member{ID: fmt.Sprintf("u%d", i), Host: addr(2 + i), Region: "r", Kinds: []string{fmt.Sprintf("k%d", i%2)}})
+		altHost[fmt.Sprintf("u%d", i)] = addr(9 + i) // the same member may come back under another address
+	}
+	// a member that is currently absent joins under either of its addresses; one that is present keeps its address
+	incarnate := func(m *cluster.Member) *cluster.Member {
+		if cur, ok := model[m.ID]; ok {
+			return cur
+		}
+		mm := m.CloneVT()
+		if r.Intn(2) == 0 {
+			mm.Host = altHost[m.ID]
+		}
+		return mm
 	}
 	zr := remote.New(addr(8), remote.NewConfig())
 	if _, err := actor.NewEngine(actor.NewEngineConfig().WithRemote(zr)); err != nil {
@@ -129,7 +145,6 @@ func c20Run(c *caseCtx) (res caseResult) {
 	}()
 	sentinel := &cluster.Member{ID: "zz-sentinel", Host: addr(8), Region: "r"}
 	providerPID := actor.NewPID(addr(0), "provider/node")
-	model := map[string]*cluster.Member{"node": cl.Member()}
 	modelIDs := func() []string {
 		var ids []string
 		for id := range model {
@@ -213,7 +228,7 @@ func c20Run(c *caseCtx) (res caseResult) {
 		var what string
 		switch x := r.Intn(10); {
 		case x < 3: // handshake from a universe member
-			m := universe[r.Intn(len(universe))]
+			m := incarnate(universe[r.Intn(len(universe))])
 			ids, ok := handshake(m)
 			if !ok {
 				res.inconclusive("step %d: no reply to a handshake", step)
@@ -223,7 +238,7 @@ func c20Run(c *caseCtx) (res caseResult) {
 				interesting++
 			}
 			model[m.ID] = m
-			what = "handshake " + m.ID
+			what = "handshake " + m.ID + "@" + m.Host
 			if strings.Join(ids, ",") != strings.Join(modelIDs(), ",") {
 				res.violate("step %d (%s): the handshake was answered with %v, the complete member list is %v", step, what, ids, modelIDs())
 			}
@@ -233,13 +248,27 @@ func c20Run(c *caseCtx) (res caseResult) {
 			var names []string
 			for _, m := range universe {
 				if r.Intn(2) == 0 {
-					ms = append(ms, m.CloneVT())
-					names = append(names, m.ID)
-					model[m.ID] = m
+					mm := incarnate(m)
+					ms = append(ms, mm.CloneVT())
+					names = append(names, mm.ID+"@"+mm.Host)
+					model[mm.ID] = mm
 				}
 			}
+			// the order of the list is the sender's business
+			r.Shuffle(len(ms), func(i, j int) { ms[i], ms[j] = ms[j], ms[i] })
 			h.Send(providerPID, &cluster.Members{Members: ms})
 			what = fmt.Sprintf("members %v", names)
+			// the provider reports the new list to its agent as part of handling the message: the agent's view
+			// must follow without any further stimulus (a handshake would make the provider report anyway)
+			if !waitFor(wd/3, func() bool { return strings.Join(agentIDs(), ",") == strings.Join(modelIDs(), ",") }) {
+				before := agentIDs()
+				ids, ok := handshake(cl.Member())
+				if ok && strings.Join(ids, ",") == strings.Join(modelIDs(), ",") {
+					res.violate("step %d (%s): the provider added the members of the list (its handshake reply lists %v) but did not report them to its agent, whose view stayed %v until another message made the provider report", step, what, ids, before)
+				} else {
+					res.inconclusive("step %d (%s): neither the agent (%v) nor the provider (%v) reached %v", step, what, before, ids, modelIDs())
+				}
+			}
 			shape = append(shape, 'M')
 		case x < 8: // unreachable report for a member
 			var cand []string
@@ -273,15 +302,21 @@ func c20Run(c *caseCtx) (res caseResult) {
 		default: // unreachable report for a non-member
 			var host string
 			if r.Intn(2) == 0 {
-				host = fmt.Sprintf("127.0.0.1:%d", base+12+r.Intn(3)) // nobody there, never a member
+				host = fmt.Sprintf("127.0.0.1:%d", base+16+r.Intn(3)) // nobody there, never a member
 			} else {
-				// a universe host that is currently not a member
+				// an address of the universe that no current member uses: of an absent member, or the OTHER
+				// address of a member that came back under a new one
+				var cands []string
 				for _, m := range universe {
-					if model[m.ID] == nil {
-						host = m.Host
+					for _, hst := range []string{m.Host, altHost[m.ID]} {
+						if cur := model[m.ID]; cur == nil || cur.Host != hst {
+							cands = append(cands, hst)
+						}
 					}
 				}
-				if host == "" {
+				if len(cands) > 0 {
+					host = cands[r.Intn(len(cands))]
+				} else {
 					host = "10.9.9.9:1"
 				}
 			}
